@@ -208,6 +208,25 @@ def closure_probes():
               "function outer(){ var v = 3; function inner(){ return v * 2; } v = 4; return inner(); } log(outer());"))
     P.append(("same-name-different-levels",
               "function a(x){ return function(x2){ var x = x2 + 1; return function(){ return x; }; }; } log(a(1)(5)());"))
+    # closures created in every syntactic position of a construct, and capturing every kind of loop variable
+    P.append(("forin-var-captured", "function f(o){ var fs = []; for (var k in o) { fs.push(function(){ return k; }); } return fs.map(function(g){ return g(); }); } log(f({a: 1, b: 2}));"))
+    P.append(("forof-var-captured", "function f(o){ var fs = []; for (var k of o) { fs.push(function(){ return k; }); } return fs.map(function(g){ return g(); }); } log(f([1, 2]));"))
+    P.append(("forin-predeclared-captured", "function f(o){ var k, g = function(){ return k; }; var seen = []; for (k in o) { seen.push(g()); } k = 'z'; return seen.concat(g()); } log(f({a: 1, b: 2}));"))
+    P.append(("forin-outer-function-var", "function f(){ var k = 'init'; (function(){ for (k in {p: 1, q: 2}) {} })(); return [k, typeof q]; } log(f());"))
+    P.append(("forof-outer-function-var", "function f(){ var v = 0; (function(){ for (v of [7, 8]) {} })(); return v; } log(f());"))
+    P.append(("forin-after-loop", "function f(o){ for (var k in o) {} return (function(){ return k; })(); } log(f({a: 1}));"))
+    P.append(("closure-in-while-test", "function f(){ var i = 0, gs = []; while (gs.push(function(){ return i; }) < 3) { i++; } return gs.map(function(g){ return g(); }); } log(f());"))
+    P.append(("closure-in-for-test", "function f(){ var gs = []; for (var i = 0; gs.push(function(){ return i; }) < 3; i++) {} return gs.map(function(g){ return g(); }); } log(f());"))
+    P.append(("closure-in-for-update", "function f(){ var gs = []; for (var i = 0; i < 3; gs.push(function(){ return i; }), i++) {} return gs.map(function(g){ return g(); }); } log(f());"))
+    P.append(("closure-in-for-init", "function f(){ var g; for (var i = (g = function(){ return i; }, 0); i < 3; i++) {} return g(); } log(f());"))
+    P.append(("closure-in-dowhile-test", "function f(){ var gs = [], i = 0; do { i++; } while (gs.push(function(){ return i; }) < 3); return gs.map(function(g){ return g(); }); } log(f());"))
+    P.append(("closure-in-if-test", "function f(){ var x = 1, g; if ((g = function(){ return x; })) { x = 2; } return g(); } log(f());"))
+    P.append(("closure-in-switch-discriminant", "function f(){ var x = 1, g; switch ((g = function(){ return x; }, x)) { case 1: x = 5; } return g(); } log(f());"))
+    P.append(("closure-in-case-test", "function f(){ var x = 1, g; switch (1) { case (g = function(){ return x; }, 1): x = 6; } return g(); } log(f());"))
+    P.append(("closure-in-forin-iterable", "function f(){ var x = 1, g; for (var k in (g = function(){ return x; }, {a: 1})) { x = 7; } return g(); } log(f());"))
+    P.append(("closure-in-return-and-throw", "function f(){ var x = 1; try { throw function(){ return x; }; } catch (g) { x = 8; return g(); } } log(f());"))
+    P.append(("closure-in-ternary-and-args", "function f(c){ var x = 1; var g = c ? function(){ return x; } : null; x = 9; return [g(), [function(){ return x; }][0]()]; } log(f(true));"))
+    P.append(("closure-in-label-and-block", "function f(){ var x = 1, g; lab: { { g = function(){ return x; }; } x = 10; } return g(); } log(f());"))
     P.append(("left-to-right",
               "function t(k){ log(k); return k; } var o = {m: function(a, b){ return a + b; }}; log(t(1) + t(2) * t(3), o.m(t(4), t(5)), [t(6), t(7)][t(0)], t(8) < t(9), (t(10), t(11)));"))
     P.append(("assignment-order",
